@@ -348,6 +348,9 @@ T_OBJ = T("C14obj", "fast_object", "hc_object", "hc_object_inv", "hcInv_reach", 
           kind="compressor OBJECTS: every call on every reused / pooled object (any table contents left by earlier calls, failed ones included) is the per-call function")
 T_TABLES = T("Tables", "indexOf_gen", "poolSize_gen", "valid_gen", "put_own_class", "classOf_gen", "classOf_get",
              kind="the models' size-class definitions equal the tables regenerated from the switch statements of blocks.go (Index, IsValid, Get, Put)")
+T_LEAF = T("Leaf", "set_cc_gen", "set_size_gen", "set_bc_gen", "set_bi_gen", "set_version_gen", "set_idx_gen", "set_idx_gen_nat", "get_idx_gen",
+           "dbs_size_gen", "dbs_unc_gen", "dbs_word_gen",
+           kind="the models' descriptor-flag setters/getters and block-size word equal the accessors regenerated from frame_gen.go (every argument; any previous value of the word)")
 T_POOL = T("Pool", "reach_inv", "get_size", "inv_put", "inv_get", "inv_drop", "put_foreign", "put_slice",
            kind="the shared block-buffer pools keep their size classes after every Get/Put/drop history (what the Reader's cap(b.data) bound rests on)")
 CR_FAM = dict(family="cr", variant="asm", kview=kview_w, nontrivial=nontrivial_sess,
@@ -388,11 +391,11 @@ PROPS = {
                 extra=[x_c08_race], theorems=T_C08 + T_C08t),
     "C20": dict(runs=[dict(CMP, judge=j_c01)], extra=[x_c20], theorems=T_C20 + T("C02", "c02_roundtrip"),
                 rule="each case = (flag set, generated file, mode, file or stdin/stdout); every case is non-trivial; distinct = distinct case description"),
-    "C02": dict(runs=[FW("fw", judge=j_c02w), FR("fr", judge=j_c02r), POOL_FAM], theorems=T("C02", "c02_roundtrip", "c02_roundtrip_read", "c02_roundtrip_read_consumed", "c02_read_no_error", "written_lenient") + T("C09full", "c09_writer_all", ns="C09")),
-    "C05": dict(runs=[FR("frmut", judge=j_c05), FR("fr", judge=j_c05), POOL_FAM], theorems=T_C05 + T_POOL + T_TABLES),
+    "C02": dict(runs=[FW("fw", judge=j_c02w), FR("fr", judge=j_c02r), POOL_FAM], theorems=T("C02", "c02_roundtrip", "c02_roundtrip_read", "c02_roundtrip_read_consumed", "c02_read_no_error", "written_lenient") + T("C09full", "c09_writer_all", ns="C09") + T_LEAF),
+    "C05": dict(runs=[FR("frmut", judge=j_c05), FR("fr", judge=j_c05), POOL_FAM], theorems=T_C05 + T_POOL + T_TABLES + T_LEAF),
     "C06": dict(runs=[FR("frtrunc", judge=j_c06)], theorems=T_C06 + T_C06r),
     "C07": dict(runs=[FR("frhost", judge=j_c07), FR("frmut", judge=j_c07), POOL_FAM], theorems=T_POOL + T_TABLES + T_C07 + T("C19", "c19_bad_magic") + T("C08", "R.progress", "R.terminates", "R.noleak")),
-    "C09": dict(runs=[FW("fw", judge=j_c09), CR_FAM, FW("fwlife", judge=j_c09), dict(CMP, judge=j_c10)], theorems=T_C09 + T_C09leg + T_C18 + T_TABLES),
+    "C09": dict(runs=[FW("fw", judge=j_c09), CR_FAM, FW("fwlife", judge=j_c09), dict(CMP, judge=j_c10)], theorems=T_C09 + T_C09leg + T_C18 + T_TABLES + T_LEAF),
     "C15": dict(runs=[FW("fwfail", judge=j_c15w), FR("frfail", judge=j_c15r)], theorems=T_C15 + T_C15r),
     "C16": dict(runs=[FR("fr", judge=j_c16)], theorems=T("C16", "c16_writeTo", "c16_read", "c16_read_no_error", kind=_K64)),
     "C17": dict(runs=[FW("fwlife", judge=j_c17w, env={"VERIF_SCHED": "6"}), FR("fr", judge=j_c17r)], theorems=T_C17),
@@ -402,7 +405,7 @@ PROPS = {
     "C10": dict(runs=[dict(CMP, judge=j_c10)], theorems=T("C01fast", "c11_fast") + T("C01hc", "c11_hc")),
     "C11": dict(runs=[dict(CMP, judge=j_c11)], theorems=T("C01fast", "c11_fast") + T("C01hc", "c11_hc") + T_OBJ),
     "C18": dict(runs=[CR_FAM], theorems=T_C18),
-    "C19": dict(runs=[HDR_FAM], theorems=T_C19 + T_TABLES, exhaustive_thorough=True),
+    "C19": dict(runs=[HDR_FAM], theorems=T_C19 + T_TABLES + T_LEAF, exhaustive_thorough=True),
     "C12": dict(runs=[dict(DEC_ASM, judge=j_c12), dict(DEC_GO, judge=j_c12)], extra=[x_c12],
                 theorems=T_C12 + T("C04go", "c04_go_partial") + T("C03asm", "c04_asm_partial")),
     "C13": dict(runs=[dict(XXH, judge=j_c13), FW("fwck", judge=j_c09, env={"VERIF_SCHED": "7"}), HDR_FAM,
